@@ -25,10 +25,7 @@ func SigOf(fn *ssa.Function) string {
 // SigLine is the reference line of fn.
 func SigLine(fn *ssa.Function) string { return fn.String() + "\t" + SigOf(fn) }
 
-// checkSignature: the rules read parameters, arguments and results of the functions they are anchored in by
-// position. A function whose signature is no longer the one the rules were confirmed against cannot be
-// analysed by them (CHECKER-ERROR "cannot decide", never a violation).
-func checkSignature(fn *ssa.Function) {
+func loadSigs() {
 	if sigRef == nil {
 		sigRef = map[string]string{}
 		for _, l := range strings.Split(referenceSigs, "\n") {
@@ -37,11 +34,45 @@ func checkSignature(fn *ssa.Function) {
 			}
 		}
 	}
+}
+
+func splitSig(s string) (params, results string) {
+	if i := strings.Index(s, " -> "); i >= 0 {
+		return s[:i], s[i+4:]
+	}
+	return s, ""
+}
+
+// The rules read parameters, arguments and results of the functions they are anchored in by position. A
+// function whose signature is no longer the one the rules were confirmed against cannot be analysed through
+// those positions (CHECKER-ERROR "cannot decide", never a violation). Both lists are checked when a function
+// is resolved as an anchor (Program.Func), and the parameter list again whenever a rule reads a parameter or a
+// call-site argument of a named module function by position (ssax.Args, rules.paramOf, rules.rawArgs), which
+// also covers callees that are not anchors themselves.
+func CheckResults(fn *ssa.Function) {
+	loadSigs()
 	want, ok := sigRef[fn.String()]
 	if !ok {
 		return
 	}
-	if got := SigOf(fn); got != want {
-		panic(AnchorError{fmt.Sprintf("the signature of %s changed since the rules were confirmed (was %s, is %s): the rules anchored in it must be re-confirmed", fn.String(), want, got)})
+	_, wr := splitSig(want)
+	if _, gr := splitSig(SigOf(fn)); gr != wr {
+		panic(AnchorError{fmt.Sprintf("the result list of %s changed since the rules were confirmed (was %s, is %s): the rules anchored in it must be re-confirmed", fn.String(), wr, gr)})
+	}
+}
+
+// CheckParams: see CheckResults.
+func CheckParams(fn *ssa.Function) {
+	if fn == nil {
+		return
+	}
+	loadSigs()
+	want, ok := sigRef[fn.String()]
+	if !ok {
+		return
+	}
+	wp, _ := splitSig(want)
+	if gp, _ := splitSig(SigOf(fn)); gp != wp {
+		panic(AnchorError{fmt.Sprintf("the parameter list of %s changed since the rules were confirmed (was %s, is %s) and a rule reads it by position: the rule must be re-confirmed", fn.String(), wp, gp)})
 	}
 }
